@@ -27,7 +27,7 @@ EthCases == [fam : {"client"}, ty : {"eth"}, kind : Kinds, st : {"fresh", "samet
              f : {"valid", "nodiff", "gasover", "wrongcons", "nilcons", "longbloom", "bigextra", "nobasefee", "zeroheight"}]
 
 (* parameter-change proposals: the JSON value a proposal carries *)
-RvCases == [fam : {"param"}, sub : {"rvesting"}, list : {"empty", "one", "two", "dup"}, amount : {"present", "absent", "null", "negative", "nonnumeric", "zero", "huge"},
+RvCases == [fam : {"param"}, sub : {"rvesting"}, list : {"empty", "one", "two", "dup", "three"}, amount : {"present", "absent", "null", "negative", "nonnumeric", "zero", "huge"},
             denom : {"lower", "upper", "empty", "absent"}, enable : {"true", "false", "garbage"}, pool : {"empty", "small"}]
 AggParamCases == [fam : {"param"}, sub : {"aggregate"}, key : {"EnableAggregate", "EnableEVMHook", "Unknown"}, val : {"true", "false", "garbage", "null"}]
 
